@@ -37,6 +37,7 @@ def main():
     ok, log = C.build_harness()
     cases, outs, model, mism, hits, known_hits = [], [], [], [], [], []
     cov_extra = {}
+    cov_selftest = {"tried": 0, "detected": 0}
     if not ok:
         violations.append(("harness does not build against /repo's working tree",
                            {"stage": "build", "log": log, "no_failing_input_found": True}))
@@ -81,6 +82,18 @@ def main():
                 d = mod.compare(cases[i], outs[i], model[i])
                 if d:
                     mism.append((i, d))
+            # ------------------------------------ differ self-test: a corrupted model output must be reported
+            selftest = {"tried": 0, "detected": 0}
+            corrupt = getattr(mod, "corrupt", lambda m: [3 * x + 1 if i % 2 == 0 else x for i, x in enumerate(m)])
+            clean = [i for i in range(len(cases)) if model[i] is not None and model[i] and i not in {j for j, _ in mism}]
+            for i in clean[:12]:
+                selftest["tried"] += 1
+                try:
+                    if mod.compare(cases[i], outs[i], corrupt(list(model[i]))):
+                        selftest["detected"] += 1
+                except Exception:
+                    selftest["detected"] += 1       # a malformed model output is noticed as well
+            cov_selftest = selftest
             # --------------------------------- property oracle (always, on everything)
             for i in range(len(cases)):
                 d = mod.oracle(cases[i], outs[i])
@@ -98,6 +111,10 @@ def main():
                                {"stage": "run", "error": str(ex), "no_failing_input_found": True}))
 
     # ------------------------------------------------------------------- verdict
+    if cov_selftest["tried"] >= 3 and cov_selftest["detected"] * 2 < cov_selftest["tried"]:
+        violations.append(("differ self-test failed: corrupted model outputs were accepted (%s)" % cov_selftest,
+                           {"stage": "selftest", "selftest": cov_selftest, "no_failing_input_found": True,
+                            "unchecked": "correspondence %s (the differ cannot be trusted)" % pid}))
     for i, d in hits[:5]:
         violations.append((d, {"stage": "oracle", "case": cases[i], "impl": outs[i],
                                "model": model[i] if model else None, "what": d}))
@@ -142,6 +159,7 @@ def main():
         "known_finding_hits": len(known_hits),
         "explanation": getattr(mod, "EXPLANATION", mod.RULE),
     }
+    coverage["differ_selftest"] = dict(cov_selftest, rule="up to 12 agreeing cases are re-compared against a deliberately corrupted model output; the differ must object")
     coverage.update(cov_extra)
     C.write_evidence(pid, tier, seed, level, coverage, list(getattr(mod, "ASSUMPTIONS", [])),
                      time.time() - t0, len(violations))
